@@ -154,6 +154,12 @@ def build(workload):
         if spec.get("alias_of") is not None and spec["alias_of"] in by_id and by_id[spec["alias_of"]] is not v:
             v.pose = by_id[spec["alias_of"]].pose
     edges = [edge_from_spec(e) for e in workload["edges"]]
+    # ... or an edge's measurement / offset may be the very object that is some vertex's pose
+    for spec, e in zip(workload["edges"], edges):
+        if spec.get("estimate_alias_of") is not None and spec["estimate_alias_of"] in by_id:
+            e.estimate = by_id[spec["estimate_alias_of"]].pose
+        if spec.get("offset_alias_of") is not None and spec["offset_alias_of"] in by_id:
+            e.offset = by_id[spec["offset_alias_of"]].pose
     g = Graph(edges, vertices)
     params = workload.get("params")
     if params is not None:
@@ -520,6 +526,21 @@ def gen_opt_workload(rng, opts=None):
             vspecs[b]["pose"] = dict(vspecs[a]["pose"])
             vspecs[b]["alias_of"] = vspecs[a]["id"]
             meta["aliased_pose"] = True
+    if o["alias_poses"] and rng.random() < o["alias_poses"]:
+        # an odometry measurement (or a landmark offset) that is the same object as a vertex pose of that type
+        cands = []
+        for e in edges:
+            if e["kind"] in ("odometry", "numeric_odometry"):
+                t = type_name(e["estimate"])
+                cands += [(e, "estimate", k) for k in range(nv) if vspecs[k]["pose"]["t"] == t and "alias_of" not in vspecs[k]]
+            elif e["kind"] in ("landmark", "numeric_landmark") and e.get("offset") is not None:
+                t = type_name(e["offset"])
+                cands += [(e, "offset", k) for k in range(nv) if vspecs[k]["pose"]["t"] == t and "alias_of" not in vspecs[k]]
+        if cands:
+            e, what, k = rng.choice(cands)
+            e[what] = pose_from_spec(vspecs[k]["pose"])
+            e[what + "_alias_of"] = vspecs[k]["id"]
+            meta["aliased_" + what] = True
     if o["asym_information"]:
         for e in edges:
             info = np.array(e["information"], dtype=np.float64)
@@ -542,6 +563,9 @@ def gen_opt_workload(rng, opts=None):
         if "offset" in e:
             s["offset"] = pose_to_spec(e["offset"])
             s["offset_id"] = e["offset_id"]
+        for key in ("estimate_alias_of", "offset_alias_of"):
+            if key in e:
+                s[key] = e[key]
         especs.append(s)
     meta["n_vertices"] = nv
     meta["n_edges"] = len(especs)
